@@ -20,6 +20,8 @@ type GraphOpts struct {
 	Deep        bool // rarely (1 in 25) append a chain of 26..70 relations, each one hop or rewrite away from the next
 	Depth3      bool // in a sixth of the models allow three operator levels (cousin operators) also outside the Big profile
 	SingleChild bool // API-written models: unions / intersections with a single operand (one operator in ten)
+	Scale       bool // one model in eight is scaled up along one dimension (InflateGraph) to counts around 8, 16, 32 (chains: up to 129)
+	SparseMeta  bool // API-written models: one model in six carries relation metadata only for relations with type restrictions
 	NoRestr     bool // API-written models: a direct assignment without any type restriction (one assignable relation in thirty)
 }
 
@@ -151,6 +153,12 @@ func GraphModel(t *rapid.T, o GraphOpts) *Model {
 			{Name: "c1", Params: []Param{{Name: "x", Type: "int"}}, Expr: "x > 1"},
 			{Name: "c2", Params: []Param{{Name: "y", Type: "string"}}, Expr: "y == \"a\""},
 		}
+	}
+	if o.Scale && rapid.IntRange(0, 7).Draw(t, "scale") == 0 {
+		m.Scaled = InflateGraph(t, m)
+	}
+	if o.SparseMeta && rapid.IntRange(0, 5).Draw(t, "sparseMeta") == 0 {
+		m.SparseMeta = true
 	}
 	if o.Deep && rapid.IntRange(0, 24).Draw(t, "deep") == 0 {
 		deepChain(t, m)
